@@ -733,9 +733,12 @@ class G:
         outer_ok = "outer-args" not in self.disabled
         self.reserved = {"a", "b", "c"}
         callee_kind = self.pick(["render", "render", "call"])
-        cctx = self.pick(["top", "top", "top", "render", "render", "include", "macro"])
+        cctx = self.pick(["top", "top", "top", "render", "render", "include", "macro", "block", "block"])
         if cctx == "macro":
             callee_kind = "render"
+        # cctx "block": the caller is the overriding block of a child template; the base binds names around the
+        # block tag, which the block sees and the callee must not
+        base_loop = cctx == "block" and self.p(0.4)
         vc: list[list[Any]] = []  # varied caller bindings [name, kind, variation id]
         ve: list[list[Any]] = []  # varied callee effects
 
@@ -828,7 +831,7 @@ class G:
         cform = self.i(0, 3)  # argument form of the enclosing render / include (cctx render, include)
         if cctx == "render" and not outer_ok:
             cform = 3
-        levels = sum(w in ("for", "tablerow") for w in wrappers) + (cctx == "render" and cform == 1)
+        levels = sum(w in ("for", "tablerow") for w in wrappers) + (cctx == "render" and cform == 1) + base_loop
         same_len = levels >= 2
         for w in wrappers:
             if w in ("for", "tablerow"):
@@ -865,6 +868,26 @@ class G:
         # ---- where the caller lives
         if cctx == "top":
             main = caller
+        elif cctx == "block":
+            base_pre = [self.varied_binding("caller", vc) for _ in range(self.i(1, 3))]
+            blk: list[dict[str, Any]] = [T("["), {"t": "block", "name": "blk", "body": [T("dflt")]}, T("]")]
+            if base_loop:
+                v_ = self.pick(POOL)
+                ra, rb = self.rng2(same_len)
+                who, vid = self.new_vid("caller")
+                blk = [{"t": "for", "var": v_, "iter": ra, "body": blk, "else": None, "alt": {"iter": rb},
+                        "alt_who": who}]
+                vc.append([v_, "base-for-var", vid])
+                if not same_len:
+                    vc.append(["forloop", "base-forloop", vid])
+            elif self.p(0.3):
+                n_ = self.pick(POOL)
+                v1, v2 = self.lit2()
+                who, vid = self.new_vid("caller")
+                blk = [{"t": "with", "args": [[n_, v1]], "body": blk, "alt": {"args": [[n_, v2]]}, "alt_who": who}]
+                vc.append([n_, "base-with", vid])
+            self.templates["c"] = base_pre + blk + probe("Z")
+            main = [{"t": "extends", "name": ["str", "c"]}, {"t": "block", "name": "blk", "body": caller}]
         elif cctx == "macro":
             pn = self.pick(POOL)
             v1, v2 = self.lit2()
@@ -1240,6 +1263,8 @@ class C07(Prop):
         callee_reads: set[tuple[str, str]] = set()
         caller_reads: set[tuple[str, str]] = set()
         caller_frag = templates.get("c", src_main)
+        if case["cctx"] == "block":
+            caller_frag = src_main[1]["body"]
         for s in caller_frag + src_main:
             if s["t"] == "macro" and s["name"] != "m":
                 caller_frag = s["body"]
